@@ -350,8 +350,61 @@ func (p *Program) ruleCircleApproximation(c *Check) {
 			return true
 		})
 	}
+	// the vertex loop may live in a helper that is handed the centre and the half-spans
+	intoHelper := func(st ast.Stmt) bool {
+		var target *ast.CallExpr
+		var callee *types.Func
+		ast.Inspect(st, func(n ast.Node) bool {
+			call, ok := n.(*ast.CallExpr)
+			if !ok || target != nil {
+				return true
+			}
+			f, _ := typeutil.Callee(info, call).(*types.Func)
+			if f == nil || f.Pkg() != fn.Pkg() || f == fn {
+				return true
+			}
+			hd := p.Decl(f)
+			if hd == nil || hd.Body == nil {
+				return true
+			}
+			for _, hs := range hd.Body.List {
+				if _, isFor := hs.(*ast.ForStmt); isFor {
+					target, callee = call, f
+				}
+			}
+			return true
+		})
+		if target == nil {
+			return false
+		}
+		hd := p.Decl(callee)
+		nenv := &casEnv{info: info, vars: map[types.Object]*casPoly{}, tup: map[types.Object][]*casPoly{}, structs: map[types.Object]*casStruct{}}
+		i := 0
+		for _, fl := range hd.Type.Params.List {
+			for _, nm := range fl.Names {
+				if i < len(target.Args) {
+					o := info.Defs[nm]
+					if isStructType(o.Type()) {
+						if sv := ce.structOf(env, target.Args[i]); sv != nil {
+							nenv.structs[o] = sv
+						}
+					} else if b, ok := o.Type().Underlying().(*types.Basic); ok && b.Info()&types.IsNumeric != 0 {
+						nenv.vars[o] = ce.expr(env, target.Args[i])
+					}
+				}
+				i++
+			}
+		}
+		env = nenv
+		return walk(hd.Body.List)
+	}
 	walk = func(list []ast.Stmt) bool {
 		for _, st := range list {
+			if _, isFor := st.(*ast.ForStmt); !isFor {
+				if _, isIf := st.(*ast.IfStmt); !isIf && intoHelper(st) {
+					return true
+				}
+			}
 			switch s := st.(type) {
 			case *ast.IfStmt:
 				// a guard that returns early (degenerate radius) is not part of the vertex formula
